@@ -247,8 +247,57 @@ def replay_lowpass(case) -> dict:
     return dict(failures=fails, classes={"lowpass": 1})
 
 
+def replay_rotland(case) -> dict:
+    """Searches over rotations (and templates) with a mask that is NOT rotation symmetric: every candidate has its own rotated
+    mask; the landscape (one block per candidate) and the alignment must describe the same search."""
+    from scipy.spatial.transform import Rotation
+
+    shape = tuple(case["shape"])
+    rng = np.random.default_rng(case["seed"])
+    c = (np.array(shape) - 1) / 2
+    T = case["T"]
+    tmpls = [_blob(shape, c, rng), _blob(shape, c + np.array([0.7, -0.6, 0.4]), rng, sigma=1.2)][:T]
+    rots = [Rotation.identity(), Rotation.from_euler("z", 90, degrees=True), Rotation.from_euler("zyx", [40, 25, -30], degrees=True)]
+    zz, yy, xx = np.indices(shape)
+    # an off-centre, elongated soft mask: its rotated copies differ from one another
+    mask = np.clip(1.6 - np.sqrt(((zz - c[0] - 0.8) / 3.0) ** 2 + ((yy - c[1] + 0.5) / 2.0) ** 2 + ((xx - c[2]) / 4.0) ** 2), 0, 1).astype(np.float32)
+    d = np.array(case["disp"], dtype=float)
+    sub = (_blob(shape, c + d, rng) + 0.05 * rng.normal(size=shape)).astype(np.float32)
+    M = _models()[case["model"]]
+    model = M(tmpls if T > 1 else tmpls[0], mask, rotations=rots)
+    desc = dict(part="rotland", model=case["model"], shape=list(shape), T=T, K=len(rots))
+    fails = []
+    l0 = np.asarray(engine.api(model.landscape, sub, (0.0, 0.0, 0.0)), dtype=np.float64)
+    r0 = engine.api(model.align, sub, (0.0, 0.0, 0.0))
+    flat0 = l0.reshape(l0.shape[0], -1)[:, 0] if l0.ndim == 4 else l0.ravel()
+    if len(flat0) != T * len(rots):
+        fails.append(dict(desc, clause="LandscapeBlocks", observed=list(l0.shape)))
+        return dict(failures=fails)
+    top = np.sort(flat0)
+    if case["model"] in ("ZNCC", "NCC") and abs(float(top[-1]) - float(r0.score)) > 3e-3:
+        fails.append(dict(desc, clause="ZeroRangeLandscapeMaxIsAlignScore", landscape_max=float(top[-1]), align0=float(r0.score)))
+    if top[-1] - top[-2] > 0.05 * max(1e-6, abs(top[-1])) and int(np.argmax(flat0)) != int(r0.label):
+        fails.append(dict(desc, clause="LandscapeArgmaxIsAlignLabel", observed=int(np.argmax(flat0)), expected=int(r0.label)))
+    lds = np.asarray(engine.api(model.landscape, sub, (2.0, 2.0, 2.0)), dtype=np.float64)
+    res = engine.api(model.align, sub, (2.0, 2.0, 2.0))
+    if lds.ndim == 4:
+        am = np.unravel_index(int(np.argmax(lds)), lds.shape)
+        flat = np.sort(lds.ravel())
+        # the landscape is sampled at integer shifts, the alignment refines to sub-pixel: the two may legitimately prefer
+        # different candidates when two blocks are nearly as good, so the comparison needs a clear winner among the blocks
+        bm = np.sort(lds.reshape(lds.shape[0], -1).max(axis=1))
+        clear = len(bm) < 2 or bm[-1] - bm[-2] > 0.05 * max(1e-6, abs(bm[-1]))
+        if clear and flat[-1] - flat[-2] > 1e-3 * max(1.0, abs(flat[-1])):
+            sh = np.array(am[1:]) - (np.array(lds.shape[1:]) - 1) / 2
+            if int(am[0]) != int(res.label) or np.max(np.abs(sh - np.asarray(res.shift))) > 1.0 + 1e-6:
+                fails.append(dict(desc, clause="LandscapeMaxAtShiftAndLabel", block=int(am[0]), label=int(res.label), argmax=sh.tolist(), shift=[float(x) for x in res.shift]))
+    return dict(failures=fails, classes={"rotland": 1})
+
+
 def replay(case) -> dict:
     k = case.get("part")
+    if k == "rotland":
+        return replay_rotland(case)
     if k == "wedge":
         return replay_wedge(case)
     if k == "lowpass":
@@ -290,7 +339,9 @@ def run(rep: engine.Report, tier: str, seed: int):
     fsel = [c for c in fc.emitted if c["cfg"]["order"] == 2 and min(c["cfg"]["s"]) >= 2 and c["cfg"]["c"][0] > 0]
     fsel = engine.stratified_sample(fsel, lambda c: (tuple(n % 2 for n in c["cfg"]["s"]), json.dumps(c["cfg"]["c"])), 200 if tier == "quick" else len(fsel), seed)
     lowp = [dict(part="lowpass", model=("ZNCC", "NCC")[j % 2], cfg=c["cfg"], rden=c["rden"], rnum=c["rnum"], identity=c["identity"], seed=seed * 17 + j) for j, c in enumerate(fsel)]
-    allc = exact + rel + ldr + wedge + lowp
+    rotl = [dict(part="rotland", model=m, shape=list(sh), T=T, seed=seed * 13 + i, disp=[(1, -1, 0), (0, 1, 1), (-1, 0, 1)][i % 3])
+            for i, (m, sh, T) in enumerate((m, sh, T) for m in ("ZNCC", "NCC", "PCC") for sh in ((9, 9, 9), (8, 9, 10), (10, 8, 8)) for T in (1, 2))]
+    allc = exact + rel + ldr + wedge + lowp + rotl
     results = engine.parallel_replay("harness.props.c07", "replay", allc)
     engine.collect(rep, allc, results, key=lambda c: (c.get("part"), c.get("model"), c["cfg"]) if c.get("part") in ("wedge", "lowpass") else (c.get("cfg") or c))
     rep.traces_validated = len(allc)
@@ -304,7 +355,7 @@ def run(rep: engine.Report, tier: str, seed: int):
         f"arg-max = reported shift); loader.score / construct_landscape vs the model ({len(ldr)} cases); wedge composition: "
         f"{len(wedge)} (box, orientation, tilt pair, axis) cases with the exact mask of spec/Wedge.tla (TLC): the model's mask at the "
         "molecule orientation agrees on every bin off a plane, and ZNCC/NCC score = normalised correlation after that mask; low-pass "
-        f"composition: {len(lowp)} (box, cutoff) cases with the exact Butterworth gains of spec/Filter.tla: score = normalised correlation of the filtered pair"
+        f"searches over 3 rotations x 1-2 templates with a rotation-asymmetric mask ({len(rotl)} cases: zero-range landscape maximum = align score, arg-max block = label, landscape maximum at the reported shift); composition: {len(lowp)} (box, cutoff) cases with the exact Butterworth gains of spec/Filter.tla: score = normalised correlation of the filtered pair"
     )
     rep.assumptions += ["with a tilt model the score is checked against the correlation after the wedge mask (bins exactly on a wedge plane as the model "
                         "has them); with a cutoff against the correlation after the exact Butterworth gain (boxes up to 5^3); cutoff and wedge TOGETHER only through relations"]
